@@ -288,7 +288,7 @@ def build_decoder(spec: dict, kind: str, opts: Optional[dict] = None, fresh: boo
             if kind == "syndrome":
                 dec = D.SyndromeLookupDecoder(enc)
             elif kind == "ml":
-                dec = D.BruteForceMLDecoder(enc)
+                dec = D.BruteForceMLDecoder(enc, precompute_codebook=opts.get("precompute", True))
             elif kind == "bm":
                 dec = D.BerlekampMasseyDecoder(enc)
             elif kind == "rm_hard":
